@@ -38,6 +38,9 @@ SIG = {
 IOV_READ = {"fd_pread": (1, 2), "fd_read": (1, 2), "sock_recv": (1, 2)}
 IOV_WRITE = {"fd_pwrite": (1, 2), "fd_write": (1, 2), "sock_send": (1, 2)}
 EFAULT_W, ERRNO_MAX = 21, 76
+# functions whose host operation can only fail in a few ways: other error numbers must be explained by the guards of the model
+HOST_ERRNOS = {"fd_prestat_get": {8, 29}, "fd_prestat_dir_name": {8, 29}, "fd_fdstat_get": {8, 29}, "fd_filestat_get": {8, 29},
+               "random_get": {29}, "fd_seek": {8, 28, 29, 31, 52}, "fd_tell": {8, 28, 29, 31, 52}, "fd_close": {8, 29}}
 
 
 def errno_tables():
@@ -196,7 +199,7 @@ def oracle(c):
         if len(new) <= 1 and res["errno"] == 0: allowed = set(new)
     if not set(ch) <= allowed:
         return ("table-changed", "%s%s -> %s changed descriptors %s (allowed %s)" % (fn, a, res, ch, sorted(allowed)))
-    if res["errno"] != 0 and ch and fn != "fd_renumber":
+    if res["errno"] != 0 and ch:
         return ("table-changed", "%s%s failed with %d but changed descriptors %s" % (fn, a, res["errno"], ch))
     return None
 
@@ -255,7 +258,7 @@ def coq_case(c, inv):
     es = [(0, 0, 0)]
     if res["kind"] in ("gopanic", "hostpanic"):
         es = [(inv.get(52, 13), 0, 0), (inv.get(63, 19), 0, 0)]      # File.Utimens unsupported: ENOSYS / EPERM
-    elif o not in (0, EFAULT_W):
+    elif o not in (0, EFAULT_W) and o in HOST_ERRNOS.get(fn, {o}):
         s = inv.get(o, 8)
         es = [(s, 0, 0), (0, s, 0), (0, 0, s)]
         if fn == "fd_filestat_set_times": es += [(inv.get(52, 13), s, 0), (inv.get(63, 19), s, 0)]
@@ -276,7 +279,12 @@ def coq_case(c, inv):
             rws = [[(0, inv.get(o, 8))], [(0, inv.get(52, 13))]]
     hcs = "; ".join("(%d, %d, %d, %d, %s)" % (e1, e2, e3, n, zp(r_)) for (e1, e2, e3) in es for n in ns for r_ in rws)
     diff = c.get("diff") or []
-    return "(%s, %d, %s, %d, %d, %s, [%s], (%d, %d), %s, %s)" % (env, ms, zp(d), iovs, inp, call, hcs, ob[0], ob[1], zp(diff), zl(calls)), None
+    chg = []
+    if res["kind"] != "exit":
+        ch, before, _ = table_changes(c)
+        named = {i32(x) for x in a} if fn == "fd_renumber" else set()
+        chg = sorted({fd if (fd in before or fd in named) else -1 for fd in ch})
+    return "(%s, %d, %s, %d, %d, %s, [%s], (%d, %d), %s, %s, %s)" % (env, ms, zp(d), iovs, inp, call, hcs, ob[0], ob[1], zp(diff), zl(calls), zl(chg)), None
 
 
 def eval_shard(args):
@@ -306,7 +314,8 @@ def run(tier, seed):
         ck.violation("harness-build", {"kind": "build"}, {"log": log[-3000:]}, no_input=True)
         return ck.finish()
     # the whole run is capped: a descriptor table or buffer growing towards GiB kills the child, never the box
-    cmd = "ulimit -v 6000000; exec %s -seed %d -n %d -compiler-every %d" % (binp, seed, n, 8)
+    cmd = "ulimit -v 6000000; exec %s -seed %d -n %d -compiler-every %d -corpus %s" % (
+        binp, seed, n, 8, os.path.join(ROOT, "corpus", "C15", "fixed.json"))
     rc, outp = sh(["bash", "-c", cmd], timeout=3000)
     cases, sigs = [], None
     for ln in outp.split("\n"):
